@@ -32,7 +32,7 @@ UNPROVEN = ['"a refused operation leaves both operands unchanged": the structura
             'effect lists); that nothing else (aliasing through helper calls, C code) touches the operands is observed by by-value snapshots on '
             'every refused and accepted step of the correspondence only',
             'applicability of lentil.Rotate / lentil.Flip (open known finding KF-C08-rotate-flip)']
-ASSUMPTIONS = ['lentil.Pupil() with its default focal_length=None copies None onto the wavefront; a following propagate_dft/fft raises an accidental "unsupported operand … NoneType" TypeError (or, after a further multiplication has turned None into inf, ValueError "cannot convert float NaN to integer" / "negative dimensions") where the type machine says pupil -> image. Generated (Pupil default constructor, tag propagate:no-focal-length:accidental-exception), accepted and counted; reported to the coordinator as a defect candidate. Every other TypeError must carry one of the documented refusal messages (ptype guard, _propagate_ptype, Wavefront.ptype setter).',
+ASSUMPTIONS = ['propagated pupils carry a focal length: a Pupil() built without one (default focal_length=None; inf after a further plane) fails loudly in propagate_dft/propagate_fft with an accidental TypeError/ValueError — generated (Pupil default constructor), counted (tag propagate:no-focal-length:accidental-exception); with focal_length None and at least one field the outcome must be an exception, never a wavefront; with no field to transform, or once a further plane has turned None into inf, propagate_* may also return a (degenerate, alpha = 0) wavefront of the documented type — counted (tag propagate:infinite-focal-length:returned-a-wavefront). Not a violation: no clause says such a wavefront must propagate (coordinator decision). Every other TypeError must carry one of the documented refusal messages (ptype guard, _propagate_ptype, Wavefront.ptype setter).',
                'competing refusals: planes are also built with a pixel scale equal to / different from the wavefront\'s; a "Not allowed" cell must raise TypeError whatever else is wrong with the operands, an allowed cell with inconsistent pixel scales raises ValueError (C07\'s rule; the type model carries no pixel scale, such steps are compared step-wise). Array planes of another shape are not a refusal (fields intersect).',
                'a custom multiply (one that never delegates to Plane.multiply) is modelled by a structural rule read off its source: names that do not exist -> AttributeError; otherwise, if every return hands back the argument, a copy of it, or a Wavefront built with (p|plane)type=<argument>.(p|plane)type, the type is kept without consulting the table (Gen.classCustomKeepsType); else the model refuses with OtherError and the correspondence decides',
                'propagate_fft on a wavefront carrying fitted tilt raises NotImplementedError whatever its type (the tilt check precedes the type check: generated as Gen.codePropagateFft, theorem fft_typing); with no data at all the harness uses propagate_dft (propagate_fft needs a field to pad)',
@@ -220,7 +220,7 @@ def impl(case):
             if o['k'] == 'prop':
                 plane = None
                 sw = _snap_w(w)
-                tilts.append(None); pxconf.append(False); nofocal.append(w.focal_length is None or not np.isfinite(w.focal_length))
+                tilts.append(None); pxconf.append(False); nofocal.append(('none' if w.data else 'none-nodata') if w.focal_length is None else ('inf' if not np.isfinite(w.focal_length) else False))
                 try:
                     N = 8
                     du = 5e-6 if (w.focal_length is None or not np.isfinite(w.focal_length) or w.pixelscale is None) else w.wavelength * w.focal_length / (N * w.pixelscale[0])
@@ -254,6 +254,7 @@ def impl(case):
                 if _snap_w(w) != sw: mutated.append([i, 'wavefront'])
                 if _snap_p(plane) != sp: mutated.append([i, 'plane'])
         if any(nf and t_ not in WTYPES and not _documented_typeerror(m_) for nf, t_, m_ in zip(nofocal, trace, msgs)): NOTES[id(case)] = ['propagate:no-focal-length:accidental-exception']
+        if any(nf in ('inf', 'none-nodata') and t_ in WTYPES for nf, t_ in zip(nofocal, trace)): NOTES.setdefault(id(case), []).append('propagate:infinite-focal-length:returned-a-wavefront')
         return {'trace': trace, 'mutated': mutated, 'ptypes': ptypes, 'tilts': tilts, 'changed_ok': changed_ok, 'pxconf': pxconf, 'msgs': msgs, 'nofocal': nofocal}
 
 DOC_TYPEERRORS = ("can't multiply Wavefront with ptype", "Wavefront must have ptype", 'invalid ptype', 'cannot be type')
@@ -347,6 +348,9 @@ def oracle(case, io):
         if o['k'] == 'prop':
             want = {'pupil': 'image', 'image': 'pupil'}.get(cur, 'TypeError')
             what = f"propagate_{'fft' if o['fft'] else 'dft'} from '{cur}'"
+            if io['nofocal'][i] == 'none' and want in WTYPES and r in WTYPES:
+                msgs.append(f"step {i}: {what} on a wavefront without a (finite) focal length returned a '{r}' wavefront; it must fail loudly")
+                continue
             if io['nofocal'][i] and want in WTYPES and r not in WTYPES and not _documented_typeerror(io['msgs'][i]):
                 # reported defect candidate (see ASSUMPTIONS): Pupil() with its default focal_length=None hands None to the wavefront
                 continue
